@@ -219,6 +219,7 @@ KNOWN_WITNESSES = {}
 TS_DEFAULT = 1_700_000_000_123_456_789
 BIG = 2000          # records longer than this get sampled tear points
 LIT_LIMIT = 250_000  # longest Coq literal text for one byte string
+OUTCOME_LIT_LIMIT = 20_000   # a mutated record that unexpectedly decodes to a large value is compared by the oracle only
 
 
 # --------------------------------------------------------------------------------------
@@ -703,11 +704,11 @@ def to_coq(case, obs):
         pts = range(obs["len"]) if tp["points"] == "all" else tp["points"]
         for k in pts:
             o = _coq_outcome(bad.get(k, DE))
-            if o is not None:
+            if o is not None and len(o) < OUTCOME_LIT_LIMIT:
                 muts.append("(Tear %s, %s)" % (L.N(k), o))
     for s, o in zip(case.get("suffixes", []), obs["suffixes"]):
         oc = _coq_outcome(o)
-        if oc is not None:
+        if oc is not None and len(oc) < OUTCOME_LIT_LIMIT:
             muts.append("(Extend %s, %s)" % (_coq_bytes(_unspec(s)), oc))
     fl = obs["flips"]
     if len(fl) == 48 and [x[:2] for x in fl] == [[i, b] for i in range(6) for b in range(8)] and all(o == DE or o == ["ok-unchanged"] for _, _, o in fl):
@@ -716,7 +717,7 @@ def to_coq(case, obs):
     else:
         for i, b, o in fl:
             oc = _coq_outcome(o)
-            if oc is not None:
+            if oc is not None and len(oc) < OUTCOME_LIT_LIMIT:
                 muts.append("(Flip %s %s, %s)" % (L.N(i), L.N(b), oc))
     return ("row", "((%s, %s, %s, %s, %s) : row_case)" % (ts, row_term, enc, dec, L.lst(muts)))
 
